@@ -463,6 +463,7 @@ def canon(sc):
 def run(ctx):
     ctx.prove()
     t1(ctx)
+    t1_read_as(ctx)
     n = 1500 if ctx.tier == "quick" else 40000
     scs = gen_scenarios(ctx.rng, n)
     impls = [run_impl(sc, str(ctx.workdir), i, want_junit=False) for i, sc in enumerate(scs)]
@@ -564,6 +565,51 @@ Proof. split; reflexivity. Qed.
             if st[r] != want:
                 ctx.violation("E4", "_parse_status: missing fields fail unless the matching ignore flag is given",
                               {"ign_src": a, "ign_ref": b, "status": f, "impl": st[r], "statement": want})
+
+
+def t1_read_as(ctx):
+    """--read-as reader selection, exhaustive over all sequences of <= 3 mappings of 2 readers x 3 patterns and 4 file names"""
+    try:
+        from fieldcompare._cli._common import _make_file_type_map
+    except Exception as e:  # noqa: BLE001
+        ctx.notes.append(f"refinement tie _make_file_type_map skipped ({e})")
+        return
+    import fnmatch
+    import itertools
+    readers = ["mesh", 'dsv{"delimiter":","}']
+    pats = ["*.dat", "a*", None]            # None: no pattern given (= "*")
+    names = ["a.dat", "b.dat", "a.csv", "zz"]
+    rows = []
+    atoms = [(r, p) for r in range(2) for p in range(3)]
+    for k in range(0, 4):
+        for seq in itertools.product(atoms, repeat=k):
+            args = [readers[r] + ("" if pats[p] is None else ":" + pats[p]) for r, p in seq]
+            ftm = _make_file_type_map(args)
+            for ni, nm in enumerate(names):
+                got = ftm(nm)
+                sel = None if got is None else (0 if got[0] == "mesh" else 1)
+                rows.append((seq, ni, sel))
+    mt = {ni: [p for p in range(3) if fnmatch.fnmatch(names[ni], pats[p] or "*")] for ni in range(len(names))}
+    tbl = clist([f"({clist([f'({cnat(r)}, {cnat(p)})' for r, p in seq], '(nat * nat)')}, {clist([cnat(p) for p in mt[ni]], 'nat')}, "
+                 f"{'None' if sel is None else 'Some ' + cnat(sel)})" for seq, ni, sel in rows])
+    src = """From Coq Require Import Arith Bool List.
+From FC Require Import Model.ReadAs.
+Import ListNotations.
+Definition tbl (l : list nat) (n : nat) : bool := existsb (Nat.eqb n) l.
+Definition oeq (a b : option nat) : bool := match a, b with Some x, Some y => Nat.eqb x y | None, None => true | _, _ => false end.
+Definition table : list (list (nat * nat) * list nat * option nat) := """ + tbl + """.
+Lemma read_as_matches_impl : forallb (fun r => oeq (select_reader (fst (fst r)) (tbl (snd (fst r)))) (snd r)) table = true.
+Proof. vm_compute. reflexivity. Qed.
+"""
+    ok = ctx.table_lemma("T1_read_as_selection", src)
+    ctx.tie("T1 --read-as selection rows", len(rows))
+    if not ok:
+        for seq, ni, sel in rows:
+            order = list(dict.fromkeys(r for r, _ in seq))
+            want = next((r for r in order if any(p in mt[ni] for rr, p in seq if rr == r)), None)
+            if sel != want:
+                ctx.violation("E4", "--read-as: the first reader (in order of appearance) with a matching pattern must be used",
+                              {"mappings": [readers[r] + ":" + str(pats[p]) for r, p in seq], "file": names[ni], "impl": sel, "statement": want})
 
 
 def replay(pid, rec):
